@@ -712,6 +712,13 @@ func (h *history) txnStep() {
 		}
 		fmt.Println(line)
 	}
+	if replayVerbose {
+		// model/real divergence is reported in a verbose replay whatever the property's oracle is
+		stv := dumpState(h.wd.P, m.view(h.wd.Keys))
+		if d := cmpValues(stv, m); d != "" { // m already holds this transaction if it committed
+			fmt.Println("    |   model/real value divergence after this transaction:", d)
+		}
+	}
 	if replayVerbose && len(rep.KeyDiffs)+len(rep.InsDiffs)+len(rep.OwnReads) > 0 {
 		fmt.Println("    |   executor notes:", rep.KeyDiffs, rep.InsDiffs, rep.OwnReads)
 	}
@@ -829,6 +836,13 @@ func (h *history) interlope(inflight *TxnSpec, reserved []uint32) {
 	}
 	m.Apply(t2.Ops)
 	h.dirtyBefore = true
+}
+
+// cloneDone copies a spec including the executor's results.
+func cloneDone(s TxnSpec) TxnSpec {
+	out := TxnSpec{Abort: s.Abort, Ops: make([]Op, len(s.Ops))}
+	copy(out.Ops, s.Ops)
+	return out
 }
 
 func cloneSpec(s TxnSpec) TxnSpec {
